@@ -8,8 +8,8 @@ Batches are lists (`x[i]` = `xs[i]`, `condition[i]` = `cs[i]`; for an unconditio
 distribution `C = Unit`).  All definitions are generic in the scalar: run at `Float` by
 `Driver/Losses.lean`, reasoned about at `ℝ` in `Proofs/Losses.lean` / `Props/C17.lean`.
 
-What is *not* modelled: `stop_gradient` (the value of `stop_gradient p` is `p`; only JAX autodiff
-sees it — checked on the real code in `tools/props/c17.py`), and `jr.choice`'s actual PRNG: the
+What is *not* modelled HERE: `stop_gradient` (the value of `stop_gradient p` is `p`; only autodiff sees
+it — the gradient clause of C17 lives in the reverse-mode model `Model/ElboAd.lean`), and `jr.choice`'s actual PRNG: the
 choice without replacement is "the first `n` entries of some permutation of the candidates", the
 permutation being an explicit argument.
 -/
